@@ -25,6 +25,7 @@ fn case(id: &str, setup: Vec<Cmd>, actors: Vec<Vec<Cmd>>, script: Vec<(usize, &s
         rng: 0,
         sticky: 0,
         script: script.into_iter().map(|(a, p)| (a, p.to_string())).collect(),
+        target: 0,
     }
 }
 
@@ -144,6 +145,7 @@ fn gen_deleters_case(r: &mut Rng, k: usize) -> Case {
         rng: r.next() | 1,
         sticky: *r.pick(&[0, 30, 60]),
         script: vec![],
+        target: 0,
     }
 }
 
@@ -209,6 +211,7 @@ fn gen_case(r: &mut Rng, k: usize) -> Case {
         rng: r.next() | 1,
         sticky: *r.pick(&[0, 50, 80]),
         script: vec![],
+        target: 0,
     }
 }
 
